@@ -225,11 +225,20 @@ class Shape:
     def is_self_attr(n):
         return isinstance(n, ast.Attribute) and isinstance(n.value, ast.Name) and n.value.id == 'self'
 
+    @staticmethod
+    def created_name(n):
+        """create_request_by_name('<Msg>') -> '<Msg>'"""
+        if (isinstance(n, ast.Call) and isinstance(n.func, ast.Name) and n.func.id == 'create_request_by_name'
+                and n.args and isinstance(n.args[0], ast.Constant) and isinstance(n.args[0].value, str)):
+            return n.args[0].value
+        return None
+
     def exchange(self, call, c, bind, nxt):
-        if len(call.args) < 1 or not isinstance(call.args[0], ast.Name):
+        direct = self.created_name(call.args[0]) if call.args else None
+        if direct is None and (len(call.args) < 1 or not isinstance(call.args[0], ast.Name)):
             self.emit('Untranslated %s' % q('send_message: request is not a local variable'))
             return
-        rv = self.reqvar.get(call.args[0].id)
+        rv = direct if direct is not None else self.reqvar.get(call.args[0].id)
         chk = 'ChkNone'
         if bind is not None and nxt is not None and isinstance(nxt, ast.Expr) and isinstance(nxt.value, ast.Call):
             k = nxt.value
@@ -283,7 +292,13 @@ class Shape:
                     else:
                         self.reqvar.pop(x, None)
                     return
-                if x in self.reqvar:
+                made = [self.created_name(a) for a in v.args] if isinstance(v, ast.Call) else []
+                made = [m for m in made if m is not None]
+                if len(made) == 1 and not (isinstance(v.func, ast.Attribute) and self.is_self_attr(v.func)
+                                           and v.func.attr == 'send_message'):
+                    # req = led.to_request(create_request_by_name('X')): the request object passes through
+                    self.reqvar[x] = made[0]
+                elif x in self.reqvar:
                     # req = led.to_request(req): the same request object goes on; anything else forgets it
                     keeps = (isinstance(v, ast.Call) and any(isinstance(a, ast.Name) and a.id == x for a in v.args))
                     if not keeps:
